@@ -39,6 +39,12 @@ type Driver struct {
 	env  *walletenv.Env
 	bk   *backends
 	past map[int64][][2]int64 // txid -> every (height, block id) it was confirmed in
+
+	// C12 (lease.go), opt-in: full-width lock ids named by the case (model id
+	// -> 32 bytes; nil = the legacy one-byte ids), and lease / release / list
+	// through the wallet-level API of a wallet-backed driver.
+	LockIDs   map[int64]wtxmgr.LockID
+	WalletAPI bool
 }
 
 // NewDriver creates a fresh store.
@@ -75,7 +81,10 @@ func NewDriver(u *Universe) (*Driver, error) {
 // Reopen closes and reopens the database file and the store (restart).
 func (d *Driver) Reopen() error {
 	if d.env != nil {
-		return errors.New("reopen is not supported on a wallet-backed driver")
+		if d.bk != nil {
+			return errors.New("reopen is not supported on a wallet-backed driver")
+		}
+		return d.reopenWallet()
 	}
 	if err := d.DB.Close(); err != nil {
 		return err
@@ -173,6 +182,9 @@ func (d *Driver) Apply(e Event) StepOut {
 		d.Clock.SetTime(Epoch.Add(time.Duration(d.NowMs) * time.Millisecond))
 		return out
 	}
+	if e.K == "restart" || (d.WalletAPI && (e.K == "lease" || e.K == "release")) {
+		return d.applyLeaseLayer(e) // lease.go
+	}
 	err := walletdb.Update(d.DB, func(tx walletdb.ReadWriteTx) error {
 		ns := tx.ReadWriteBucket(nsKey)
 		switch e.K {
@@ -210,7 +222,7 @@ func (d *Driver) Apply(e Event) StepOut {
 			}
 			return d.Store.RemoveUnminedTx(ns, rec)
 		case "lease":
-			exp, err := d.Store.LockOutput(ns, lockID(e.ID), d.outPoint(e.Op), time.Duration(e.Dur)*time.Millisecond)
+			exp, err := d.Store.LockOutput(ns, d.lockIDOf(e.ID), d.outPoint(e.Op), time.Duration(e.Dur)*time.Millisecond)
 			switch {
 			case err == nil:
 				out.Lock = "ok"
@@ -224,7 +236,7 @@ func (d *Driver) Apply(e Event) StepOut {
 			}
 			return nil
 		case "release":
-			err := d.Store.UnlockOutput(ns, lockID(e.ID), d.outPoint(e.Op))
+			err := d.Store.UnlockOutput(ns, d.lockIDOf(e.ID), d.outPoint(e.Op))
 			switch {
 			case err == nil:
 				out.Lock = "ok"
@@ -294,7 +306,8 @@ type Obs struct {
 	Ranges  [][][]int64 `json:"ranges,omitempty"` // per query: groups of txids
 	RangeQ  [][2]int64  `json:"rangeq,omitempty"`
 	Unique  []Details   `json:"unique,omitempty"`
-	Q       *QObs       `json:"q,omitempty"` // extra queries (queries.go), only when the case opts in
+	Q       *QObs       `json:"q,omitempty"`       // extra queries (queries.go), only when the case opts in
+	WLeased [][5]int64  `json:"wleased,omitempty"` // Wallet.ListLeasedOutputs (lease.go): txid, idx, lock id, expiry ms, value
 }
 
 // BlockIDs resolves real block hashes back to block ids.
@@ -398,7 +411,7 @@ func (d *Driver) Observe(tipModel int64, o ObserveOpts) (Obs, error) {
 		}
 		for _, l := range ls {
 			obs.Locked = append(obs.Locked, [4]int64{d.U.IDOf(l.Outpoint.Hash), int64(l.Outpoint.Index),
-				int64(l.LockID[0]), l.Expiration.Sub(Epoch).Milliseconds()})
+				d.idOfLock(l.LockID), l.Expiration.Sub(Epoch).Milliseconds()})
 		}
 		sort.Slice(obs.Locked, func(i, j int) bool {
 			return lessOp([2]int64{obs.Locked[i][0], obs.Locked[i][1]}, [2]int64{obs.Locked[j][0], obs.Locked[j][1]})
@@ -454,6 +467,9 @@ func (d *Driver) Observe(tipModel int64, o ObserveOpts) (Obs, error) {
 		}
 		return nil
 	})
+	if err == nil && d.WalletAPI {
+		err = d.observeWalletLeases(&obs) // lease.go
+	}
 	return obs, err
 }
 
